@@ -131,10 +131,15 @@ def align_rules(facts, rep):
                 chk = True
     ok &= rep.check(chk, rule, "self-check", where(f, f.span), "assert_eq!(final data start % align, 0) after padding", "the alignment self-check disappeared")
     # the pad record: id 'za' then u16 length = pad vector length, then the pad
-    w16 = calls_matching(f, r"WriteBytesExt::write_u16$")
-    good = len(w16) == 1
+    # (written little-endian either by byteorder's write_u16::<LittleEndian> or as write_all(&(len as u16).to_le_bytes()))
+    cands = [norm(ex.operand(t_["args"][1], (b_, None))) for b_, t_ in calls_matching(f, r"WriteBytesExt::write_u16$")]
+    for b_, t_ in calls_matching(f, r"io::Write::write_all$"):
+        a_ = norm(ex.operand(t_["args"][1], (b_, None)))
+        if a_[0] == "call" and a_[1].endswith("::to_le_bytes") and a_[2] and a_[2][0][0] == "cast" and str(a_[2][0][3]) == "u16":
+            cands.append(a_[2][0])
+    good = len(cands) == 1
     if good:
-        v = norm(ex.operand(w16[0][1]["args"][1], (w16[0][0], None)))
+        v = cands[0]
         good = "len()" in tokens(v) and any(y[0] == "call" and y[1].endswith("from_elem") for y in walk(v))
     ok &= rep.check(good, rule, "pad-record-length", where(f, f.span), "pad record length field = length of the pad", "pad record length is not the pad vector's length")
     ra = ret_alts(f)
